@@ -290,12 +290,35 @@ def ensure_built(verbose=False):
 def run_impl(pid, tier, seed, rundir, name=None):
     cases = os.path.join(rundir, "cases.txt")
     stats = os.path.join(rundir, "stats.json")
-    for f in (cases, stats):
+    progress = os.path.join(rundir, "progress")
+    for f in (cases, stats, progress):
         if os.path.exists(f):
             os.remove(f)
     rc, out = sh([os.path.join(BUILD, "implrun"), name or pid, "-seed", str(seed), "-tier", tier,
-                  "-out", cases, "-stats", stats], timeout=7200)
+                  "-out", cases, "-stats", stats], timeout=7200, env=dict(os.environ, IMPLRUN_PROGRESS=progress))
     return rc, out, cases, stats
+
+
+def crashed_case(pid, tier, seed, rundir, name=None):
+    """After a fatal runtime error of the implementation (which no recover() can catch): the number of the
+    case that was running is in the progress file; implrun -only N prints that case and runs it alone."""
+    progress = os.path.join(rundir, "progress")
+    try:
+        n = int.from_bytes(open(progress, "rb").read(8), "little")
+    except (OSError, ValueError):
+        return None
+    if n == 0:
+        return None
+    rc, out = sh([os.path.join(BUILD, "implrun"), name or pid, "-seed", str(seed), "-tier", tier, "-only", str(n)], timeout=600)
+    lines = out.splitlines()
+    if not lines or "\t" not in lines[0]:
+        return None
+    case = lines[0]
+    if len(lines) > 1 and lines[1].startswith("OBS\t"):
+        # alone it ran through: the crash needs the cases before it as well
+        return {"case": case, "number": n, "alone": lines[1][4:], "fatal": None}
+    fatal = " | ".join(l for l in lines[1:6] if l.strip())[:600]
+    return {"case": case, "number": n, "alone": None, "fatal": fatal}
 
 
 def run_model(cases, rundir):
@@ -519,6 +542,18 @@ def run_check(pid, tier, seed):
             m = re.search(r"HANG\t(.*)", out)
             hang = m.group(1) if m else "?"
         if rc not in (0, 3):
+            cc = crashed_case(pid, run_tier, seed, rundir, cfg.get("impl"))
+            if cc is not None:
+                head = " | ".join(l for l in out.splitlines()[:4] if l.strip())[:500]
+                path = write_replay(pid, {"property": pid, "kind": "case", "case": cc["case"],
+                                          "impl_obs": "FATAL runtime error (process died): " + (cc["fatal"] or head),
+                                          "model_obs": "returns",
+                                          "case_number_in_stream": cc["number"],
+                                          "ran_alone": cc["alone"],
+                                          "what": "the implementation crashed the harness process while running this case" +
+                                                  ("" if cc["alone"] is None else " (alone it runs through: the crash needs the preceding cases of the stream, seed %s tier %s)" % (seed, run_tier))})
+                violations.append((path, ""))
+                return None
             return "implrun failed rc=%d: %s" % (rc, out[-1500:])
         if os.path.exists(statsf):
             stats = json.load(open(statsf))
